@@ -77,7 +77,13 @@ type File struct {
 	// NoBody (only for files that have front-matter): the file ends with the closing fence,
 	// "eof" = without, "eofnl" = with a final line ending. Such a file renders to nothing.
 	NoBody string `json:"nobody,omitempty"`
-	K      string `json:"k,omitempty"` // front-matter `k:` value; "" = key absent
+	// Pad (only for files that have front-matter): the front-matter block additionally carries a
+	// key `summary` of about this many bytes, written before the other keys; PadList writes it
+	// as a YAML list of short items instead of one long scalar. The size of the block changes
+	// nothing about what it says.
+	Pad     int    `json:"pad,omitempty"`
+	PadList bool   `json:"pad_list,omitempty"`
+	K       string `json:"k,omitempty"` // front-matter `k:` value; "" = key absent
 }
 
 // Long describes a synthetic chain <dir>/c001.vuego -> c002 -> ... -> cN (-> Tail).
@@ -95,7 +101,9 @@ type Case struct {
 	Long  *Long  `json:"long,omitempty"`
 	FillK string `json:"fill_k,omitempty"` // Fill data value of k; "" = not in Fill
 	// FillKind: what is handed to Fill: "" = map[string]any, "struct" = a struct value with json
-	// tags k / fd, "ptr" = a pointer to it (a layout name supplied through Fill always travels in a map).
+	// tags k / fd, "ptr" = a pointer to it, "tmap" = a typed map (map[string]string), "embed" = a
+	// struct whose k / fd fields are promoted from an embedded struct, "embedptr" = a pointer to
+	// that (a layout name supplied through Fill always travels in a map[string]any).
 	FillKind string `json:"fill_kind,omitempty"`
 	Via      string `json:"via,omitempty"` // "" = Load(p).Fill(d).Render ; "renderfile" = Fill(d).RenderFile(p)
 
@@ -285,6 +293,16 @@ func sourceFM(f File, isPage, withLayout bool) string {
 	eol := "\n"
 	if f.EOL == "crlf" {
 		eol = "\r\n"
+	}
+	if len(fm) > 0 && f.Pad > 0 {
+		pad := "summary: " + strings.Repeat("lorem ipsum ", f.Pad/12+1)[:max(f.Pad-9, 1)]
+		if f.PadList {
+			pad = "summary:"
+			for n := 0; len(pad) < f.Pad; n++ {
+				pad += eol + fmt.Sprintf("  - item %04d of a long list", n)
+			}
+		}
+		fm = append([]string{pad}, fm...)
 	}
 	if len(fm) > 0 {
 		open, closing := "---", "---"
@@ -497,6 +515,26 @@ type fillNoK struct {
 	Fd string `json:"fd"`
 }
 
+// FillInner / FillInnerNoK are embedded by fillEmbed / fillEmbedNoK: k and fd are promoted fields.
+type FillInner struct {
+	K  string `json:"k"`
+	Fd string `json:"fd"`
+}
+
+type FillInnerNoK struct {
+	Fd string `json:"fd"`
+}
+
+type fillEmbed struct {
+	FillInner
+	Extra string `json:"extra"`
+}
+
+type fillEmbedNoK struct {
+	FillInnerNoK
+	Extra string `json:"extra"`
+}
+
 type sink struct {
 	fw.Capture
 	b fw.Budget
@@ -551,6 +589,20 @@ func (e *engine) render(c Case) (res result) {
 	var fill any = data
 	if c.FillKind != "" && !(c.LayoutVia == "fill" && c.Page.Layout != "") {
 		switch {
+		case c.FillKind == "tmap":
+			tm := map[string]string{"fd": fdVal}
+			if c.FillK != "" {
+				tm["k"] = c.FillK
+			}
+			fill = tm
+		case c.FillKind == "embed" && c.FillK != "":
+			fill = fillEmbed{FillInner: FillInner{K: c.FillK, Fd: fdVal}, Extra: "x"}
+		case c.FillKind == "embed":
+			fill = fillEmbedNoK{FillInnerNoK: FillInnerNoK{Fd: fdVal}, Extra: "x"}
+		case c.FillKind == "embedptr" && c.FillK != "":
+			fill = &fillEmbed{FillInner: FillInner{K: c.FillK, Fd: fdVal}, Extra: "x"}
+		case c.FillKind == "embedptr":
+			fill = &fillEmbedNoK{FillInnerNoK: FillInnerNoK{Fd: fdVal}, Extra: "x"}
 		case c.FillK != "" && c.FillKind == "ptr":
 			fill = &fillK{K: c.FillK, Fd: fdVal}
 		case c.FillK != "":
@@ -1027,13 +1079,33 @@ func classify(c Case) (bool, []string) {
 		cls = append(cls, "fill=struct")
 	case "ptr":
 		cls = append(cls, "fill=pointer-to-struct")
+	case "tmap":
+		cls = append(cls, "fill=typed-map")
+	case "embed":
+		cls = append(cls, "fill=struct-with-embedded-fields")
+	case "embedptr":
+		cls = append(cls, "fill=pointer-to-struct-with-embedded-fields")
 	default:
 		cls = append(cls, "fill=map")
+	}
+	{
+		big := 0
+		for i, f := range pl.chain {
+			if f.Pad > big && (i == 0 || f.Layout != "" || f.Empty != "" || f.K != "") && !(i > 0 && i == len(pl.chain)-1 && pl.pageReused) {
+				big = f.Pad
+			}
+		}
+		switch {
+		case big > 4096:
+			cls = append(cls, "front-matter>4KiB-on-chain")
+		case big > 0:
+			cls = append(cls, "front-matter-padded<=4KiB-on-chain")
+		}
 	}
 	if pl.out == oOK && len(pl.chain) > 1 && c.Page.K != "" && c.FillK != "" {
 		for i := 1; i < len(pl.chain); i++ {
 			if pl.chain[i].K == "" {
-				cls = append(cls, "k:layout-must-see-page-front-matter-over-fill("+map[string]string{"": "map", "struct": "struct", "ptr": "ptr"}[c.FillKind]+")")
+				cls = append(cls, "k:layout-must-see-page-front-matter-over-fill("+map[string]string{"": "map"}[c.FillKind]+c.FillKind+")")
 				break
 			}
 		}
@@ -1484,7 +1556,18 @@ func genCase(t *rapid.T) Case {
 	if c.Long != nil && rapid.Bool().Draw(t, "long.crlf") {
 		c.Long.EOL = "crlf"
 	}
-	c.FillKind = rapid.SampledFrom([]string{"", "", "struct", "ptr"}).Draw(t, "fill.kind")
+	c.FillKind = rapid.SampledFrom([]string{"", "", "struct", "ptr", "tmap", "embed", "embedptr"}).Draw(t, "fill.kind")
+	cyclic := walk(c).out == oCycle
+	padOf := func(f *File, label string) {
+		if !cyclic && rapid.IntRange(0, 4).Draw(t, "pad?:"+label) == 0 {
+			f.Pad = rapid.SampledFrom([]int{10, 1000, 4000, 4090, 4100, 4200, 8192}).Draw(t, "pad:"+label)
+			f.PadList = rapid.Bool().Draw(t, "padlist:"+label)
+		}
+	}
+	padOf(&c.Page, "page")
+	for i := range c.Files {
+		padOf(&c.Files[i], c.Files[i].Path)
+	}
 	if c.Page.Layout != "" {
 		c.LayoutVia = rapid.SampledFrom([]string{"", "", "", "", "fill", "assign"}).Draw(t, "layout.via")
 	}
@@ -1666,7 +1749,7 @@ func histories(s *stage) {
 func fillKinds(s *stage) {
 	for shape := 0; shape < 3; shape++ {
 		for m := 0; m < 16; m++ {
-			for _, kind := range []string{"", "struct", "ptr"} {
+			for _, kind := range []string{"", "struct", "ptr", "tmap", "embed", "embedptr"} {
 				for _, via := range []string{"", "renderfile"} {
 					c := Case{Page: File{Path: "pages/p.vuego", Layout: "a"}, Via: via, FillKind: kind}
 					switch shape {
@@ -1690,7 +1773,57 @@ func fillKinds(s *stage) {
 
 // rotateFill varies the kind of value handed to Fill with the index.
 func rotateFill(c *Case, i int) {
-	c.FillKind = []string{"", "struct", "", "ptr", "struct"}[i%5]
+	c.FillKind = []string{"", "struct", "tmap", "ptr", "embed", "", "embedptr", "tmap"}[i%8]
+}
+
+var padSizes = []int{10, 1000, 4000, 4200, 8192, 70000}
+
+// rotatePad gives the front-matter of some files a long `summary` value (10 bytes .. 70 KB).
+// Chains that cannot end are left alone (every one of their ~100 iterations would parse the
+// block again, which only costs time), and the largest size is kept for the pad stage.
+func rotatePad(c *Case, i int) {
+	if walk(*c).out == oCycle {
+		return
+	}
+	sizes := padSizes[:len(padSizes)-1]
+	if i%5 == 0 {
+		c.Page.Pad = sizes[(i/5)%len(sizes)]
+		c.Page.PadList = (i/25)%2 == 1
+	}
+	for j := range c.Files {
+		if (i+j)%7 == 1 {
+			c.Files[j].Pad = sizes[(i/7+j)%len(sizes)]
+			c.Files[j].PadList = (i/35+j)%2 == 1
+		}
+	}
+}
+
+// padded: a chain page -> layouts/a -> layouts/404 where one of the three files (each has
+// front-matter) carries a summary of 10 .. 70000 bytes as one scalar or as a list; both entry points.
+func padded(s *stage) {
+	for who := 0; who < 3; who++ {
+		for _, size := range padSizes {
+			for _, list := range []bool{false, true} {
+				for _, via := range []string{"", "renderfile"} {
+					c := Case{Page: File{Path: "pages/p.vuego", Layout: "a", K: kValue("pages/p.vuego")},
+						Files: []File{{Path: "layouts/a.vuego", Layout: "404"}, {Path: "layouts/404.vuego", K: kValue("layouts/404.vuego")}}, Via: via}
+					f := &c.Page
+					if who > 0 {
+						f = &c.Files[who-1]
+					}
+					f.Pad, f.PadList = size, list
+					if s.n%3 == 0 {
+						f.EOL = "crlf"
+					}
+					rotateFS(&c, s.n/2)
+					rotateFill(&c, s.n/2)
+					if !s.yield(c) {
+						return
+					}
+				}
+			}
+		}
+	}
 }
 
 var emptySpellings = []string{"", "bare", "quoted", "tilde"}
@@ -1821,6 +1954,7 @@ func overlaySplits(s *stage) {
 			rotateEmpty(&d, i/2)
 			rotateSpell(&d, i)
 			rotateFill(&d, i)
+			rotatePad(&d, i)
 			if !s.yield(d) {
 				return false
 			}
@@ -1919,6 +2053,7 @@ func shapes(s *stage) {
 					rotateEmpty(&c, i/3)
 					rotateSpell(&c, i)
 					rotateFill(&c, i/2)
+					rotatePad(&c, i)
 					if !viaDefault && L > 0 {
 						switch i % 6 {
 						case 1:
@@ -1965,6 +2100,9 @@ func allGraphs(s *stage, slots []string) {
 		rotateEmpty(&c, i/5)
 		rotateSpell(&c, i)
 		rotateFill(&c, i/3)
+		if run.Thorough() {
+			rotatePad(&c, i) // quick: front-matter sizes are covered by the pad, overlay, shape and random stages
+		}
 		return s.yield(c)
 	})
 }
@@ -2017,7 +2155,8 @@ func TestProp(t *testing.T) {
 		{"zone", "default-applied vs explicitly named base over chains of 93..106 templates", limitZone},
 		{"overlay", "all layout graphs over 3 files x 3 page options x every upper/lower split of the layout files", overlaySplits},
 		{"history", "all layout graphs over 3 files x 3 page options x each file removed and restored between renders on one engine", histories},
-		{"fill", "chains of 1-2 layouts x every subset of k sources x Fill as map/struct/pointer x 2 entry points", fillKinds},
+		{"fill", "chains of 1-2 layouts x every subset of k sources x Fill as map / struct / pointer / typed map / embedding struct / pointer to it x 2 entry points", fillKinds},
+		{"pad", "one file of a 3-file chain with a front-matter block of 10..70000 bytes (scalar / list)", padded},
 		{"spell", "one file of a 3-file chain in every line-ending x fence-blanks x body/front-matter-only spelling", spellings},
 		{"empty", "page layout key absent/empty in three spellings x base absent/present/continuing", emptyKeys},
 		{"shape", "chain shapes: lengths 0..5 x placements x endings x default/named", shapes},
